@@ -889,7 +889,7 @@ func main() {
 	}
 	cfg = vh.ParseFlags("C13")
 	rep = vh.NewReport(cfg)
-	cases = vh.NewCases(cfg, "Run.Run_C13", 60)
+	cases = vh.NewCases(cfg, "Run.Run_C13", 80)
 	rep.Rule = "a filter build counts when N > 0; a query list when the filter and the list are non-empty; fastReduction when n >= 2^32 (both halves of the 128-bit product in play); collision2^32 = constructed queries whose hashed value differs from a member's by a multiple of 2^32"
 	rng := vh.NewRNG(cfg.Seed)
 	if cfg.Replay != "" {
